@@ -25,6 +25,8 @@ def evaluator(prog, mappers_opaque=True, extra=()):
     if isinstance(cls, ast.ClassDef):
         mem = prog.find_member(net, cls, 'is_zero_node')
         if mem and isinstance(mem[1], ast.FunctionDef): ev.atom_methods[('network', 'is_zero_node')] = (mem[0], mem[1])
+        mem = prog.find_member(net, cls, 'branch_ids')
+        if mem and isinstance(mem[1], ast.FunctionDef): ev.atom_methods[('network', 'branch_ids')] = (mem[0], mem[1])
     for nm, d in prog.mod(EL).defs.items():
         if isinstance(d, ast.FunctionDef) and nm.startswith('is_'): ev.opaque_fns.add((EL, nm))
     if mappers_opaque:
